@@ -77,5 +77,43 @@ theorem InvS.reach {s : State} (h : Reachable Init Step s) : InvS s := by
   | base hi => obtain ⟨n, hn, rfl⟩ := hi; exact InvS.init n
   | tail hr hst ih => exact InvS.step hst (InvP.reach hr) ih
 
+/-- the thread that entered the set path is still inside it, or `set_value` has returned -/
+def InvL (s : State) : Prop := ∀ t, s.firer = some t → inSet (s.pc t) = true ∨ s.setDone = true
+
+set_option maxHeartbeats 2000000 in
+theorem InvL.step {s s' : State} (h : Step s s') (hP : InvP s) (hS : InvS s) (hi : InvL s) : InvL s' := by
+  have hP' := hP
+  obtain ⟨cons_le, seals_le, xchg_seal, storage_none, storage_some, head_none, none_fired, latch_val, at_p0, at_s0, at_s1, at_s2, at_s3, at_s4, done, open_det⟩ := hS
+  obtain ⟨ho, hp, noPend, c0_pend, pend_c0, pend_nodup, count_eq, count_lt, fired, zero⟩ := hP
+  cases h with
+  | act addr t h x l hst =>
+    cases hpc : s.pc t <;> simp only [stepThread, waitLoop, hpc] at hst
+    all_goals (try split at hst)
+    all_goals (try split at hst)
+    all_goals (try split at hst)
+    all_goals (try simp only [Option.some.injEq, Prod.mk.injEq, reduceCtorEq] at hst)
+    all_goals (try (obtain ⟨rfl, rfl⟩ := hst))
+    all_goals (try (exfalso; assumption))
+    all_goals (have hot := ho t; have hc0f : ∀ d, s.pc t = .c0 d → s.firer = none := fun d h => (hP'.c0_facts h).1)
+    all_goals (intro u hu; dsimp only at hu ⊢; have hiu := hi u; grind [upd_apply, inSet])
+  | tick d => exact hi
+  | set t v hidle hl hsc =>
+    intro u hu; simp only [callSet] at hu ⊢; have hiu := hi u; grind [upd_apply, inSet]
+  | down t d hidle hl h1 hb => intro u hu; simp only [callDown] at hu ⊢; have hiu := hi u; have hot := ho t; grind [upd_apply, inSet]
+  | get t hidle => intro u hu; simp only [callGet] at hu ⊢; have hiu := hi u; have hot := ho t; grind [upd_apply, inSet]
+  | waitFor t tau hidle h1 h2 => intro u hu; simp only [callWaitFor] at hu ⊢; have hiu := hi u; have hot := ho t; grind [upd_apply, inSet]
+  | reg t id hidle hs => intro u hu; simp only [callReg] at hu ⊢; have hiu := hi u; have hot := ho t; grind [upd_apply, inSet]
+  | ready t hidle => intro u hu; simp only [callReady] at hu ⊢; have hiu := hi u; have hot := ho t; grind [upd_apply, inSet]
+
+theorem InvL.reach {s : State} (h : Reachable Init Step s) : InvL s := by
+  induction h with
+  | base hi =>
+    obtain ⟨n, hn, rfl⟩ := hi
+    intro t ht
+    cases n with
+    | none => simp [State.init] at ht
+    | some k => simp only [State.init] at ht ⊢; grind [inSet]
+  | tail hr hst ih => exact InvL.step hst (InvP.reach hr) (InvS.reach hr) ih
+
 end Babylon.Future
 
